@@ -627,6 +627,35 @@ def r8_loaders_defined(chk: Check):
     chk.min_instances(n, 10, "writer / loader functions checked for definedness")
 
 
+
+def r9_known_gaps(chk: Check):
+    """Two ways a saved graph is not the loaded graph (found by review, demonstrated, kept in known_findings.json)"""
+    tree = chk.tree
+    go = tree.func("core.objects", "ConfigInformation.__get_objects__")
+    # (1) data files: sub-objects are collected outside `context.push(argument.name)`, so that two sibling configurations with the same data
+    # parameter are written to the same relative file
+    recs = [c for c in fn_calls(go.node) if "__collect_objects__" in src(c.func) and c.args and src(c.args[0]) == "value"]
+    def pushed(c):
+        p = getattr(c, "_parent", None)
+        while p is not None and p is not go.node:
+            if isinstance(p, (ast.With, ast.AsyncWith)) and any("context.push(" in src(i.context_expr) for i in p.items):
+                return True
+            p = getattr(p, "_parent", None)
+        return False
+    has_data = any("context.serialize(" in src(c) for c in fn_calls(go.node))
+    chk.require(not (has_data and recs and not all(pushed(c) for c in recs)), chk.fkey(go, "data files named by the position in the graph"),
+                "sub-configurations are serialized outside `context.push(<argument name>)`: the data file of a nested configuration is named after its own argument only, so "
+                "Model(encoder=Weights(path=a), decoder=Weights(path=b)) writes both files to <dir>/path and both reload as the decoder's", chk.loc(go.module, go.node))
+    # (2) a user dictionary that has the key "type" is read back as a typed record
+    op = tree.func("core.objects", "ConfigInformation._objectFromParameters")
+    ov = tree.func("core.objects", "ConfigInformation._outputjsonvalue")
+    reader_by_key = any(isinstance(x, ast.Compare) and isinstance(x.left, ast.Constant) and x.left.value == "type" and isinstance(x.ops[0], (ast.In, ast.NotIn)) for x in ast.walk(op.node))
+    writer_escapes = any(isinstance(x, ast.Constant) and x.value in ("dict", "$dict") for x in ast.walk(ov.node))
+    chk.require(not reader_by_key or writer_escapes, chk.fkey(op, "user dictionaries and typed records share a key"),
+                "the loader takes any dict with a key 'type' for a typed record while the writer emits user dictionaries verbatim: a Dict[str, str] value {'type': 'adam'} cannot be loaded, "
+                "and {'type': 'path', 'value': 'x'} is read back as a Path", chk.loc(op.module, op.node))
+
+
 RULES = [
     ("R1", "record keys: mandatory keys unconditional; optional keys written exactly when their source is set; every key read is written; pre-tasks / init-tasks / task / meta / fields / typename / identifier are restored", r1_record_keys),
     ("R2", "value tags: every storable kind is written; tags and payload keys of writer and loader agree; references go through the objects table; the collector reaches what the writer references", r2_value_tags),
@@ -636,4 +665,5 @@ RULES = [
     ("R7", "identifiers of a reloaded graph are recomputed, never taken from a cache filled by the loader (= C01.R3: only identifiers() writes the cache)", r7_recomputed_not_stale),
     ("R8", "definedness of the writers and loaders: every local read is assigned on every path that reaches it (no UnboundLocalError instead of a loaded graph)", r8_loaders_defined),
     ("R6", "top-level keys of the parameter file read by run / load_job / filters / from_task_dir are written; tags reach the task before execute()", r6_top_level),
+    ("R9", "known gaps of the round trip (findings kept in known_findings.json): data files of sibling configurations share one name; user dictionaries with a 'type' key", r9_known_gaps),
 ]
